@@ -20,7 +20,7 @@ from vlib import BUILD, GOENV, HARNESS, Infra, REPO, build, log, next_replay_pat
 
 RE_BAD = re.compile(r'<<"BAD", (\d+), (\d+), "(\w+)">>')
 TCFG = "SPECIFICATION TSpec\nPOSTCONDITION Accepted\nCHECK_DEADLOCK FALSE\n"
-TIERS = {"quick": (0, "FALSE"), "thorough": (0, "TRUE")}
+TIERS = {"quick": (0, "TRUE"), "thorough": (0, "TRUE")}
 
 
 def bundle_in_scratch_copy():
